@@ -160,17 +160,17 @@ def check_C07(tier):
     res.extra["records_validated"] = count_lines(trace)
     res.extra["behaviours_exported"] = nb
     res.exhaustive = False
-    if tier == "thorough":
+    if True:
         lines = open(trace).readlines()
-        for k, line in enumerate(lines):
-            rec = json.loads(line)
-            if rec.get("op") == "step" and rec.get("entries"):
+        # a session whose first record after the reset is a step that returned entries
+        for k in range(1, len(lines)):
+            rec = json.loads(lines[k])
+            if rec.get("op") == "step" and rec.get("entries") and len(lines[k]) < 100000 \
+                    and json.loads(lines[k - 1]).get("op") == "reset":
                 break
         rec["entries"] = rec["entries"][:-1]
         p2 = trace + ".selftest"
-        open(p2, "w").write(lines[k - 1] if json.loads(lines[k - 1]).get("op") == "reset" else json.dumps({"fam": "fifo", "op": "reset", "i": 0}) + "\n")
-        open(p2, "a").write(json.dumps(rec) + "\n")
-        # the preceding feeds of the session are missing in this extract, so only use it when the step is the first of its session
+        open(p2, "w").write(lines[k - 1] + json.dumps(rec) + "\n")
         _, mism, _ = tlc_validate("Trace_CbFifo", p2, "C07_self")
         okk = any(m[0] == rec["i"] for m in mism)
         res.extra["binding_selftest"] = {"corrupted_record": rec["i"], "rejected": okk}
